@@ -14,7 +14,7 @@ use crate::sim::stream::{Faults, Monitor, StreamOpts, run_stream};
 pub const SPEC: PropSpec = PropSpec {
     id: "C14",
     level: "exploration",
-    rule: "seeded E1 runs (1-4 uplinks, real handshake, real arms under a virtual clock; housekeeping period drawn from 1000..1100 ms, sometimes delayed) with light data traffic, sim-receiver keepalive echoes with 0..150 ms delay, and crafted echoes injected on random links: timely, late (> 10 s), exactly 10 s, duplicated, truncated to 2..9 bytes, future / same-ms / zero timestamps, 10-byte and arbitrary-tail frames, high->low RTT steps; black-holed links, socket errors and re-registrations in between. Every 0x9000 frame read from the receiver-side socket is decoded by the reference decoder (length 38, timestamp = virtual send time, magic / version, conn id, window / in-flight / NAK count / rate equal to the link's state at arm entry); cadence: a link that is connected and heard from never passes two consecutive housekeeping arms without a keepalive; sampling: the RTT state changes in an echo arm only if - by the monitor's own record - a keepalive went out on that link since its last echo / reset, and iff a probe was outstanding, the frame has >= 10 bytes and 0 < now - ts <= 10 s; smoothed RTT finite and >= 0 after every arm. Non-trivial = echo arms; distinct = distinct 6-grams of (arm kind x batch regime x some-link-gated x some-link-down) observed.",
+    rule: "seeded E1 runs (1-4 uplinks, real handshake, real arms under a virtual clock; housekeeping period drawn from 1000..1100 ms, sometimes delayed) with light data traffic, sim-receiver keepalive echoes with 0..150 ms delay, and crafted echoes injected on random links: timely, late (> 10 s), exactly 10 s, duplicated, truncated to 2..9 bytes, future / same-ms / zero timestamps, 10-byte and arbitrary-tail frames, high->low RTT steps; black-holed links, socket errors and re-registrations in between. Every 0x9000 frame read from the receiver-side socket is decoded by the reference decoder (length 38, timestamp = virtual send time, magic / version, conn id, window / in-flight / NAK count / rate equal to the link's state at arm entry); cadence: a link that is connected and heard from never passes two consecutive housekeeping arms without a keepalive; sampling: the RTT state changes in an echo arm only if - by the monitor's own record - a keepalive went out on that link since its last echo / reset, and iff a probe was outstanding, the frame has >= 10 bytes and 0 < now - ts <= 10 s; smoothed RTT finite and >= 0 after every arm. Non-trivial = echo arms; distinct = distinct 6-grams of (arm kind x batch regime x some-link-gated x some-link-down) observed. E6 live lane (12 sessions quick / 96 thorough): the PRODUCTION run_sender_with_config (real tokio::select! loop, reader tasks with recvmmsg, instant-ACK forwarder, timers, SIGHUP stream, control socket) runs in a real process (vlive) on loopback sockets and the real clock; the harness plays the SRT client, the SRTLA receiver model, path faults, receiver restarts, SIGHUP reloads and hostile return traffic, observes every datagram on both sides with kernel receive timestamps and uses the sender's own stats pushes (one per housekeeping tick) as its logical clock. Live oracles for this property: every keepalive on the wire is a 38-byte extended frame with window in [1000, 60000] and in-flight >= 0; keepalive timestamps never go back per uplink; on connected, answered uplinks at most 3 stats pushes are observed between consecutive keepalives.",
     assumptions: &["housekeeping arms are at least 1000 ms of virtual time apart (tokio interval with Delay behaviour), possibly later", "the cadence rule is demanded only of links whose socket accepts sends: while an injected send error (EPIPE) is armed on a link its keepalives cannot reach the wire and the link is exempt until its socket is replaced"],
     floors: &[
         ("sim.sessions_established", 100, 3000),
@@ -28,6 +28,8 @@ pub const SPEC: PropSpec = PropSpec {
         ("c14.echo.late_over_10s", 100, 3_000),
         ("c14.sharp_high_to_low_transition", 50, 1_500),
         ("c14.probe_cancelled_by_link_reset", 20, 600),
+        ("live.C14.cadence_checked", 100, 800),
+        ("live.rx.keepalive", 120, 1000),
     ],
 };
 
@@ -45,7 +47,22 @@ pub fn run_case(rng: &mut crate::prng::Rng, rep: &mut Report) {
     }
 }
 
+
+use crate::live::ReloadKind as K;
+use crate::live::Scenario as S;
+/// scenario mix of this property's live lane (E6)
+#[allow(unused_imports)]
+const LIVE_SCENARIOS: &[(S, u32)] = &[(S::Steady, 3), (S::HostileReturn, 1), (S::BlackHole, 1), (S::Reload(K::Add), 1)];
+
 pub fn run(cfg: &RunCfg) -> Report {
+    if crate::live::is_live_lane(cfg) {
+        let mut rep = Report::new();
+        crate::live::prop_lane(cfg, &mut rep, "C14", LIVE_SCENARIOS);
+        return rep;
+    }
     let cases = cfg.cases(160, 4000);
-    run_cases(cfg, 0, cases, Duration::from_secs(3600), |_c, rng, rep| run_case(rng, rep))
+    let mut rep = run_cases(cfg, 0, cases, Duration::from_secs(3600), |_c, rng, rep| run_case(rng, rep));
+    // E6: the production event loop in a real process (keepalive frames and cadence on the wire)
+    crate::live::prop_lane(cfg, &mut rep, "C14", LIVE_SCENARIOS);
+    rep
 }
